@@ -55,6 +55,13 @@ MODIFIERS = ["none", "none", "none", "time_range", "selection", "keep_columns", 
 def st_case(draw, threaded=None):
     d = draw(c01.st_case(threaded=threaded, ops=OPS))
     spec = d["spec"]
+    if any(n.get("max_messages") is not None for n in spec["nodes"]):
+        # C01's "capacity by Plugin.max_messages" variant assumes that nothing is loaded (loader-fed mailboxes only
+        # honour the context-wide capacity); here arbitrary subsets are stored, so use the context-wide capacity
+        for n in spec["nodes"]:
+            n.pop("max_messages", None)
+        d["cfg"]["max_messages"] = sum(len(c) + 1 for c in d["cutsA"].values()) + \
+            sum(len(c) + 1 for c in d["cutsB"].values()) + 3
     for n in spec["nodes"]:
         n["rechunk_on_save"] = False
         n["target_rows"] = None
